@@ -221,9 +221,9 @@ func CheckC18(r *core.Run) {
 		}
 	}
 	gen.Cleanup()
-	r.Extra["transitions"] = len(paths)
+	r.SetExtra("transitions", len(paths))
 	paths = maximalPaths(paths)
-	r.Extra["replayed_paths"] = len(paths)
+	r.SetExtra("replayed_paths", len(paths))
 	dir, err := os.MkdirTemp("", "verif-c18-")
 	if err != nil {
 		r.Break("c18: %v", err)
